@@ -1,5 +1,5 @@
 From RsdnsModel Require Import Base Cursor Names Labels Header Tracker RData Reader Script.
-From RsdnsModel.Proofs Require Import CursorSafe LabelsTotal NoUB.
+From RsdnsModel.Proofs Require Import CursorSafe LabelsTotal NoUB Defined.
 From RsdnsModel.Properties Require Import C01.
 Open Scope N_scope.
 Check (C01_name_walk_total : forall msg nk c, cwf msg c -> defined (read_name msg nk c) /\ defined (skip_name msg c)).
@@ -10,5 +10,10 @@ Check (C01_never_out_of_bounds : forall (msgs : list (list byte)) (cs : list ite
 Check (C01_cursor_total : forall msg c n, cwf msg c ->
   defined (c_u8 msg c) /\ defined (c_slice msg c n) /\ defined (c_skip c n) /\ defined (c_window c n) /\
   defined (c_close_window c) /\ (0 < n -> defined (c_be msg c n))).
+Check (C01_rdata_total : forall msg ty rd m c, read_rdata msg ty rd = Some m -> cwf msg c ->
+  cwf msg (fst (m c)) /\ defined (snd (m c))).
+Check (C01_borrowed_names_total : forall msg c1 c2, cwf msg c1 -> cwf msg c2 ->
+  defined (nameref_eq msg c1 c2) /\ defined (labels_drain msg c1)).
+Print Assumptions C01_rdata_total. Print Assumptions C01_borrowed_names_total.
 Print Assumptions C01_name_walk_total. Print Assumptions C01_name_walk_bound.
 Print Assumptions C01_never_out_of_bounds. Print Assumptions C01_cursor_total.
